@@ -301,7 +301,7 @@ class Intervals:
                         st[key_i] = r if m.empty() else m
                 st[key_l] = self.len_operand(st, op)
                 pl = flow.op_place(op)
-                if pl and pl[1] == ("0",) and p == ():
+                if pl and (pl[1] == ("0",) or pl[1] == (("v", "Some"), "0")) and p == ():
                     so = st.get(("i", pl[0], "subof"))
                     if isinstance(so, tuple) and so[0] is not None:
                         self.rel_add(st, "lt" if so[1] else "le", ("i", l), so[0])
@@ -461,6 +461,13 @@ class Intervals:
             st[key_i] = Iv(max(a.lo - b.hi, 0) if b.hi != INF else 0, max(a.hi - b.lo, 0) if a.hi != INF else INF)
             return
         c = t.get("callee") or ""
+        if re.match(r"core::num::<impl (u8|u16|u32|u64|usize)>::checked_sub$", c) and len(args) == 2:
+            # Some(a - b) exactly when b <= a: the payload is at most a, and below a when b >= 1
+            a, b = self.iv_operand(st, args[0]), self.iv_operand(st, args[1])
+            kp = key_i + (str(("v", "Some")), "0")
+            st[kp] = Iv(max(a.lo - b.hi, 0) if b.hi != INF else 0, max(a.hi - b.lo, 0) if a.hi != INF else INF)
+            st[key_i + ("subof",)] = (self.sym(args[0]), b.lo >= 1)
+            return
         m = re.match(r"core::num::<impl (u8|u16|u32|u64|usize)>::(from_be_bytes|from_le_bytes|from_ne_bytes)$", c)
         if m:
             st[key_i] = ty_range(m.group(1))
